@@ -29,6 +29,9 @@ CHECKS = {
                 tech="TLA+ model checking (TLC): exact-rational decode of observed bytes in QuantMathExt.tla"),
     "C15": dict(engine="pipeline", ref="4 C15", text=("The terminal state of every scenario of Pipeline.tla (enumerated by TLC, or the specification run on random graphs via PipelineFrom.tla) carries a symbolic parameter term per tensor; the harness resolves each term against on-grid statistics and constants, TLC (QuantMathExt.tla, exact rationals) computes the expected zero points and scales and judges the bytes the implementation stored; annotations are compared with TLC's values and TLC (Observed.tla) evaluates the relational clauses on the observed graph. ") + "C15: scenarios in which a constant tensor has several consumers or two tensors (same or different subgraphs) share a buffer, under every assignment of modes to the sharers: either quantize() raises (predicted raise site) or every referencing tensor's dtype/parameters agree with the stored bytes (decode per referencing tensor) and SharedConstOK holds on the observed graph.", note=PIPE_NOTE,
                 tech="TLA+ model checking (TLC) of Pipeline.tla (SharedConstOK, buffer-sharing check) + spec->code replay + exact-rational decode of shared buffers"),
+    "C19": dict(engine="pipeline", ref="4 C19", text="TLC enumerates two-subgraph scenarios of Pipeline.tla and the specification's machine is run (PipelineFrom.tla) on each subgraph as a stand-alone scenario; SubgraphIndependent (terminal state of subgraph i inside the pair = terminal state of the stand-alone run, outcomes agree) is checked over these behaviours; the same comparison is made on the implementation (two-subgraph model vs extracted single-subgraph models, same recipe, same constants, statistics merged per subgraph): operators, wiring, dtypes, annotations and constant bytes equal; TLC evaluates the graph predicates on the pair's result.",
+                note=PIPE_NOTE + " SubgraphIndependent relates two behaviours: the pairing of TLC's terminal states is done by the harness.",
+                tech="TLA+ model checking (TLC) of Pipeline.tla / PipelineFrom.tla with cross-behaviour comparison + spec->code replay"),
     "C08": dict(engine="pipeline", ref="4 C08", text="TLC explores Pipeline.tla under the mode map each of the 5 shipped recipes induces (read from the implementation's resolution of the unchanged JSON) and reports every may-raise terminal state; every enumerated graph and seeded random larger graphs are then run through the real API with the unchanged JSON recipe and real calibrate(); the observed return/raise decides.",
                 note=PIPE_NOTE + " Known finding F20.", tech="TLA+ model checking (TLC) of Pipeline.tla (NeverRaises) + spec->code replay with the shipped recipe files"),
     "C11": dict(engine="recipe", ref="4 C11", text="Recipe.tla is the documented resolution model; TLC checks its structural invariants and action properties on every reachable store and emits every (store, letter) transition with the predicted accept/refuse, export and resolution table; each transition is replayed on a real RecipeManager and compared at every (operator, scope) pair; longer histories by TLC simulation.",
@@ -43,6 +46,9 @@ CHECKS = {
     "C10": dict(engine="recipe", ref="4 C10", text="The scope strings the calibrator and the params generator compute for every operator of real models (converter-style names, one and two signatures) enter Recipe.tla as ScopePairs; TLC checks ScopesMatchAlike and SelectionAgrees over the stores reachable with ~45 regex patterns; then for every (model, regex, selector, config) the real calibrate() -> quantize() is run: never missing statistics, operators calibrated = operators quantised = operators the documented resolution selects on the quantization scope, per signature.",
                 note="Regex semantics are Python's re.search; scope strings read from the components' own _get_op_scope. Single-rule recipes (histories of length 1-2).",
                 tech="TLA+ model checking (TLC) of Recipe.tla (SelectionAgrees) + end-to-end spec->code replay"),
+    "C13": dict(engine="policy", ref="4 C13", text="The full lattice (480 configs x 2 algorithms x 24 operator selectors) is enumerated against the real API; for every point the protocol events (construct / update / resolve under '*' / quantize / prepare / sane) are recorded and validated by TLC against Policy.tla (trace acceptance), which evaluates the C13 invariants on every observed trace: only ValueError, refusal leaves the store unchanged, '*' always accepts and skips unsupported pairs leaving the operator untouched, no accepted point fails later. 'Runtime-sound' is an interpreter observation on a single-operator model calibrated and evaluated on the same inputs.",
+                note="Soundness threshold: relative RMS error < 0.12 of the float output range (measured gap: sound <= 0.04, unsound >= 0.2). Known findings F15, F17.",
+                tech="TLA+ trace validation (TLC) of observed protocol traces against Policy.tla over the exhaustively enumerated lattice"),
     "C14": dict(engine="api", ref="4 C14", text="Api.tla models call histories on two Quantizers sharing caller-owned calibration results (value terms, with the set of recipes that wrote into them); TLC checks ArgsUntouched and OutputIsFunction over all interleavings of load/calibrate/quantize/validate up to the bound; every emitted transition is executed on real objects: after every call all caller-owned objects are compared with deep-equality snapshots, outcomes are compared with the prediction, quantize() bytes are compared with a fresh Quantizer given equal arguments; a sample is re-run in fresh processes under PYTHONHASHSEED 0/1/random.",
                 note="One 4-operator model (FC, TANH, RESHAPE, ADD), 3 recipes chosen so that statistics side effects matter, 2 datasets, <= 2 calibration results, histories to length 4 (quick) / 5 (thorough).",
                 tech="TLA+ model checking (TLC) of Api.tla + transition replay on real objects with snapshots and fresh-object/fresh-process references"),
@@ -60,7 +66,7 @@ CHECKS = {
 NA = {
     "C07": "numeric closeness of chained LiteRT integer kernels to float kernels is not a property of any state the quantizer has; TLC has no model of those kernels and an empirical tolerance would either miss errors or raise false alarms (DESIGN 4 C07). Its discrete preconditions are decided under C03/C04/C05/C13.",
 }
-PLANNED = ["C06", "C13", "C19"]
+PLANNED = ["C06"]
 
 
 def main():
@@ -91,6 +97,7 @@ def main():
           {"name": "api", "path": "/verif/spec/Api.tla", "serves_properties": ["C14"], "kind_free_text": "TLA+ spec of call histories over caller-owned objects; transition replay"},
           {"name": "serialize", "path": "/verif/spec/Serialize.tla", "serves_properties": ["C16"], "kind_free_text": "TLA+ spec of the two-pass external-buffer layout; ObservedSerialize.tla"},
           {"name": "validate", "path": "/verif/spec/Validate.tla", "serves_properties": ["C18"], "kind_free_text": "TLA+ spec of the comparison-result partition; ObservedValidate.tla"},
+          {"name": "policy", "path": "/verif/spec/Policy.tla", "serves_properties": ["C13"], "kind_free_text": "TLA+ trace spec of the acceptance protocol of one lattice point"},
           {"name": "quantmath", "path": "/verif/spec/QuantMath.tla", "serves_properties": [p for p, c in CHECKS.items() if c["engine"] == "quantmath"],
            "kind_free_text": "exact-rational TLA+ reference of the quantisation arithmetic; expected-value replay; ObservedMath.tla"},
       ],
